@@ -90,6 +90,7 @@ def main(ctx, replay=None):
         clause_cases(ctx, rng, pandas, exports, by, outcome)
         settings_cases(ctx, rng, exports, by, outcome)
         label_cases(ctx, rng, pandas, exports, by)
+        full_table_cases(ctx, rng, pandas, exports)
         cli_cases(ctx, rng, exports, by, tmp)
     finally:
         shutil.rmtree(tmp, ignore_errors=True)
@@ -323,6 +324,58 @@ def label_cases(ctx, rng, pandas, exports, by):
                     ctx.violation(f"{s} [row labels {labels}]: component {SYMS[n]} = {None if c is None else out[c].tolist()}, row by row the "
                                   f"invariant tensors have {want_v}", case, {**sig, "clause": "supplied_moved" if (n + 1) in S else "value"})
                     break
+
+
+def full_table_cases(ctx, rng, pandas, exports):
+    """(a) A table that lists all 21 components (zeros where the symmetry makes them vanish) is a table like any other: a contradiction
+    of 50 GPa in it is refused, a consistent one is accepted with the vanishing components omitted.  (b) Redundant components that
+    disagree by less than the refusal threshold: IF the fill accepts, no relation is left violated by more than sqrt(residual_atol)."""
+    for s in fillspec.SYSTEMS:
+        if s == "triclinic":
+            continue
+        e = exports[s]
+        tensors = [[float(Fraction(x[0], x[1])) for x in t] for t in e["tensors"]]
+        van = set(e["vanishing"])
+        nonvan = [n for n in range(1, 22) if n not in van]
+        for bad in (None, int(rng.choice(nonvan))):
+            df = pandas.DataFrame({SYMS[n - 1]: [t[n - 1] + (50.0 if n == bad else 0.0) for t in tensors] for n in range(1, 22)})
+            case = {"system": s, "clause": "all_21_columns", "contradiction": None if bad is None else SYMS[bad - 1]}
+            ctx.count(case)
+            got, out = call_fill(df.copy(), s)
+            want = "accept" if bad is None else "raise"
+            sig = {"system": s, "env": "all21", "det": True, "gross": bad is not None}
+            # (a system whose only relations are 'component = 0' has no relation that a non-vanishing component could contradict)
+            relrows = parse_file(fillspec.CONSTRAINTS / s)
+            if bad is not None and not any(r[bad - 1] != 0 for r in relrows):
+                continue
+            if got != want:
+                ctx.violation(f"{s}: a table listing all 21 components{'' if bad is None else ' with ' + SYMS[bad - 1] + ' off by 50 GPa'}: expected {want}, "
+                              f"fill did {got} ({out!r})"[:300], case, {**sig, "clause": "decision", "want": want, "exc": type(out).__name__ if got == "raise" else None})
+                continue
+            if bad is None:
+                present = {c.lower() for c in out.columns}
+                kept = sorted(SYMS[n - 1] for n in van if SYMS[n - 1] in present)
+                if kept:
+                    ctx.violation(f"{s}: vanishing components {kept} of a table listing all 21 components are not omitted", case, {**sig, "clause": "zero_kept"})
+    # (b) cubic, c22 supplied next to c11 and 0.4 GPa away from it
+    for d in (0.4, -0.4):
+        df = pandas.DataFrame({"c11": [300.0, 310.0], "c22": [300.0 + d, 310.0 + d], "c12": [100.0, 110.0], "c44": [50.0, 55.0]})
+        ctx.count({"system": "cubic", "clause": "within_threshold", "d": d})
+        got, out = call_fill(df.copy(), "cubic")
+        if got != "accept":
+            continue                                   # (the refusal threshold is not what this clause is about)
+        full = numpy.zeros((2, 21))
+        low = {c.lower(): c for c in out.columns}
+        for n in range(21):
+            if SYMS[n] in low:
+                full[:, n] = out[low[SYMS[n]]].to_numpy(dtype=float)
+        for r in parse_file(fillspec.CONSTRAINTS / "cubic"):
+            resid = full @ numpy.array([float(x) for x in r])
+            if not numpy.max(numpy.abs(resid)) <= numpy.sqrt(RES_ATOL):
+                ctx.violation(f"cubic: c22 supplied {d:+} GPa away from c11 is accepted and the filled table violates a symmetry relation by "
+                              f"{numpy.max(numpy.abs(resid)):.3g} GPa (more than the square root of the residual tolerance)", {"d": d},
+                              {"system": "cubic", "env": "band", "det": True, "gross": False, "clause": "relation_violated"})
+                break
 
 
 def settings_cases(ctx, rng, exports, by, outcome):
